@@ -65,6 +65,27 @@ theorem reusable (rs : List (List Role)) (c : Cfg) (h : Reach GP rs c) (hidle : 
     c.sh = Shared.init 0 :=
   reusable_thr h hidle
 
+/-- **reusable_round**: operational form of `reusable` — from a reachable configuration in which every thread is between
+rounds, ANY thread that has a round left runs that whole round (acquire, critical section, release: 12 instructions for
+a reader, 10 for a writer) alone, without blocking; the lock is afterwards in its initial state again and every thread is
+again between rounds -/
+theorem reusable_round (rs : List (List Role)) (c : Cfg) (h : Reach GP rs c) (hidle : ∀ t ∈ c.thr, t.idle = true)
+    (i : Nat) (r : Role) (rest : List Role) (hi : c.thr[i]? = some ⟨r :: rest, 0⟩) :
+    ∃ c', runSched GP c (List.replicate (GP.round r).length i) = .ok c' ∧ c'.sh = Shared.init 0 ∧
+      c'.thr = c.thr.set i ⟨rest, 0⟩ ∧ (∀ t ∈ c'.thr, t.idle = true) := by
+  obtain ⟨c', hrun, hsh, hthr⟩ := solo_round h hidle i r rest hi
+  refine ⟨c', hrun, hsh.trans (reusable rs c h hidle), hthr, ?_⟩
+  intro t ht
+  rw [hthr] at ht
+  rcases List.mem_or_eq_of_mem_set ht with ht | rfl
+  · exact hidle t ht
+  · rfl
+
+/-- non-vacuity: a writer and then a reader run their rounds one after the other from the initial configuration -/
+example : ∃ c', runSched GP (Cfg.init GP [[.reader], [.writer]]) (List.replicate 10 1 ++ List.replicate 12 0) = .ok c' ∧
+    c'.sh = Shared.init 0 ∧ c'.thr = [⟨[], 0⟩, ⟨[], 0⟩] := by
+  exact ⟨⟨Shared.init 0, [⟨[], 0⟩, ⟨[], 0⟩]⟩, by decide +kernel, rfl, rfl⟩
+
 /-- **release_never_raises**: no reachable step releases a free mutex (`RuntimeError: release unlocked lock`) -/
 theorem release_never_raises (rs : List (List Role)) (c : Cfg) (h : Reach GP rs c) (i : Nat) :
     tstep GP c i ≠ .err := fun he => no_err_thr h i ⟨(), he⟩
@@ -158,5 +179,56 @@ theorem conditional_test_stable (rs : List (List Role)) (c c' : Cfg) (i : Nat) (
     ((cntAt c.thr .writer 2 ≠ 0 ∨ cntAt c.thr .writer 8 ≠ 0) → c'.sh.wc = c.sh.wc) := by
   obtain ⟨l, hl⟩ := sim_ok hs
   exact rinv_ctr_frozen l (abs c) (abs c') (reach_rinv h) hl
+
+/-- **vstep_reach**: the visible-step semantics that the correspondence replays against the real class (a thread performs
+its pending lock operation and runs on to its next lock operation; `RW.vstep`, an iteration of `tstep`) stays inside
+`Reach`: every replayed schedule is a thread-level schedule, so all theorems above apply to the replayed states -/
+theorem vstep_reach (rs : List (List Role)) (fuel : Nat) (c c' : Cfg) (i : Nat) (h : Reach GP rs c)
+    (hv : vstep GP fuel c i = .ok c') : Reach GP rs c' :=
+  RW.vstep_reach fuel c c' i h hv
+
+/-- non-vacuity: a visible step from the initial configuration succeeds (reader 0 takes `RQ` and stops before its next
+lock operation) -/
+example : ∃ c', vstep GP 64 (Cfg.init GP [[.reader], [.writer]]) 0 = .ok c' ∧ c'.sh.RQ = 1 ∧
+    Reach GP [[.reader], [.writer]] c' := by
+  have h1 : vstep GP 64 (Cfg.init GP [[.reader], [.writer]]) 0 =
+      .ok ⟨⟨1, 0, 0, 0, 0, 0, 0⟩, [⟨[.reader], 1⟩, ⟨[.writer], 0⟩]⟩ := by decide +kernel
+  exact ⟨_, h1, rfl, RW.vstep_reach _ _ _ _ Reach.init h1⟩
+
+/-- **counter_access_exclusive**: in every reachable configuration at most one thread is inside the critical section of a
+given light-switch (between `acq RM` and `rel RM`: reader-round points 3, 4, 5, 9, 10, 11; for `WM`: writer-round points
+1, 2, 3, 7, 8, 9), and that switch's mutex is then held.  The counter is read and written only there, so `counter += 1` /
+`-= 1` and the test that follows cannot interleave with another access to the same counter — which is what licenses
+modelling them as single instructions -/
+theorem counter_access_exclusive (rs : List (List Role)) (c : Cfg) (h : Reach GP rs c) :
+    (cntAt c.thr .reader 3 + cntAt c.thr .reader 4 + cntAt c.thr .reader 5 + cntAt c.thr .reader 9 +
+        cntAt c.thr .reader 10 + cntAt c.thr .reader 11 ≤ 1 ∧
+      (1 ≤ cntAt c.thr .reader 3 + cntAt c.thr .reader 4 + cntAt c.thr .reader 5 + cntAt c.thr .reader 9 +
+        cntAt c.thr .reader 10 + cntAt c.thr .reader 11 → c.sh.RM = 1)) ∧
+    (cntAt c.thr .writer 1 + cntAt c.thr .writer 2 + cntAt c.thr .writer 3 + cntAt c.thr .writer 7 +
+        cntAt c.thr .writer 8 + cntAt c.thr .writer 9 ≤ 1 ∧
+      (1 ≤ cntAt c.thr .writer 1 + cntAt c.thr .writer 2 + cntAt c.thr .writer 3 + cntAt c.thr .writer 7 +
+        cntAt c.thr .writer 8 + cntAt c.thr .writer 9 → c.sh.WM = 1)) :=
+  rinv_counter_exclusive (abs c) (reach_rinv h)
+
+/-- the counter an instruction reads or writes -/
+def ctrOf : Instr → Option Ctr
+  | .inc c | .dec c | .ifeq c _ _ => some c
+  | _ => none
+
+/-- the points named in `counter_access_exclusive` cover every instruction of the generated rounds that touches a counter:
+`rc` is touched only at reader points 3, 4, 9, 10 and `wc` only at writer points 1, 2, 7, 8 -/
+theorem counter_points_are_all :
+    (List.range (GP.round .reader).length).filter (fun k => ((GP.round .reader)[k]?.bind ctrOf).isSome) = [3, 4, 9, 10] ∧
+    (List.range (GP.round .writer).length).filter (fun k => ((GP.round .writer)[k]?.bind ctrOf).isSome) = [1, 2, 7, 8] ∧
+    (GP.round .reader).all (fun i => ctrOf i != some .wc) = true ∧
+    (GP.round .writer).all (fun i => ctrOf i != some .rc) = true := by
+  decide
+
+/-- non-vacuity: a reachable configuration with a thread at the `inc rc` instruction (reader point 3), mutex held -/
+example : ∃ c, Reach GP [[.reader], [.reader]] c ∧ cntAt c.thr .reader 3 = 1 ∧ c.sh.RM = 1 := by
+  have hrun : runSched GP (Cfg.init GP [[.reader], [.reader]]) [0, 0, 0] =
+      .ok ⟨⟨1, 1, 0, 1, 0, 0, 0⟩, [⟨[.reader], 3⟩, ⟨[.reader], 0⟩]⟩ := by decide +kernel
+  exact ⟨_, runSched_reach _ _ _ Reach.init hrun, by decide +kernel, rfl⟩
 
 end C20
